@@ -187,4 +187,4 @@ def file_into(rep: Report, prop: str, tier: str, kinds=None, only=None, all_cont
 RT_CALLABLE = {"expand_env_name", "expand_env_expr", "expand_search_path", "proc_pyexpr", "handle_proc", "proc_inject", "macro_call", "handle_with_macro_stmt",
                "handle_func_macro_start", "handle_with_macro_start", "handle_proc_macro_start", "proc_macro_arg", "set_expr_context", "expand_help",
                "_append_node_or_token", "is_adjacent", "_strip_path_prefix", "proc_args", "_proc_args", "concatenate_strings", "handle_fstring", "_concat_strings_in_constant",
-               "literal_eval", "ensure_real", "ensure_imaginary", "extract_import_level", "make_arguments", "get_comparison_ops", "get_comparators", "set_decorators", "check_fstring_conversion"}
+               "literal_eval", "ensure_real", "ensure_imaginary", "extract_import_level", "make_arguments", "get_comparison_ops", "get_comparators", "set_decorators", "check_fstring_conversion", "get_invalid_target", "raise_syntax_error_invalid_target"}
